@@ -153,7 +153,7 @@ def run(run, rng):
                        'encodings: ASCII-compatible single/multi-byte encodings; UTF-16/32 are not usable for rulesets (ASCII-only config/grammar files)',
                        'languages above 300000 guesses are not enumerated (inconclusive)']
     for i in range(N[run.tier]):
-        case = trained.gen_train_case(rng, max_len_choices=(21, 21, 8))
+        case = trained.gen_train_case(rng, max_len_choices=(21, 21, 8), encodings=['utf-8', 'utf-8', 'utf-8', 'latin-1', 'cp1251', 'cp1252', 'ascii', 'iso-8859-7', 'cp1254', 'utf-8-sig'])
         if i % 12 == 5:
             case['linked'] = ['first', 'retrain'][(i // 12) % 2]
         if i % 9 == 4 and not case.get('prefixcount'):
